@@ -563,8 +563,9 @@ def on_agg(self, li, si, st, meta, issue, r):
                 continue
         lim = q.get("limit")
         if lim is not None:
-            if len(got) != min(lim, len(want)):
-                self.v(clause, li, si, f"{what}: {len(got)} groups, expected min({lim}, {len(want)})", atoms=atoms, sub="limit-groups")
+            off = q.get("offset") or 0
+            if len(got) != min(lim, max(0, len(want) - off)):
+                self.v(clause, li, si, f"{what}: {len(got)} groups, expected min({lim}, {len(want)} - {off})", atoms=atoms, sub="limit-groups")
             keys = [k for k in got if k in want]
             if len(keys) != len(got):
                 self.v(clause, li, si, f"{what}: unknown groups {[k for k in got if k not in want]}", atoms=atoms, sub="groups")
